@@ -10,8 +10,8 @@
    with what the implementation returned ([coo_eqb]; Props.C16.canon_eq_sound: equal canonical forms
    have equal dense meaning everywhere), plus the canonical-form check of Corr/SArr.v; GCXS results of
    conversions are additionally compared array by array with [rows_of_coo]. *)
-From Coq Require Import String ZArith List Bool.
-From Verif Require Import Py Shape COO GCXS Judge SArr PySlice S_dense_sites SparseOps SparseOpsP.
+From Coq Require Import ZArith List Bool.
+From Verif Require Import Py Shape COO GCXS Judge SArr PySlice SparseOps SparseOpsP.
 Import ListNotations.
 Open Scope Z_scope.
 
